@@ -505,8 +505,16 @@ impl SwiftParser {
         // Parse headers
         let basic_header = BasicHeader::parse(&block1.unwrap_or_default())?;
         let application_header = ApplicationHeader::parse(&block2.unwrap_or_default())?;
-        let user_header = block3.map(|b| UserHeader::parse(&b)).transpose()?;
-        let trailer = block5.map(|b| Trailer::parse(&b)).transpose()?;
+        // A block 3 or 5 without any recognised tag is read as absent: kept as an empty
+        // header it was printed as `{3:}` by to_mt_message but dropped by the publish plugin
+        let user_header = block3
+            .map(|b| UserHeader::parse(&b))
+            .transpose()?
+            .filter(|h| *h != UserHeader::default());
+        let trailer = block5
+            .map(|b| Trailer::parse(&b))
+            .transpose()?
+            .filter(|t| *t != Trailer::default());
 
         // Extract message type from application header
         let message_type = application_header.message_type().to_string();
@@ -556,8 +564,16 @@ impl SwiftParser {
         // Parse headers
         let basic_header = BasicHeader::parse(&block1.unwrap_or_default())?;
         let application_header = ApplicationHeader::parse(&block2.unwrap_or_default())?;
-        let user_header = block3.map(|b| UserHeader::parse(&b)).transpose()?;
-        let trailer = block5.map(|b| Trailer::parse(&b)).transpose()?;
+        // A block 3 or 5 without any recognised tag is read as absent: kept as an empty
+        // header it was printed as `{3:}` by to_mt_message but dropped by the publish plugin
+        let user_header = block3
+            .map(|b| UserHeader::parse(&b))
+            .transpose()?
+            .filter(|h| *h != UserHeader::default());
+        let trailer = block5
+            .map(|b| Trailer::parse(&b))
+            .transpose()?
+            .filter(|t| *t != Trailer::default());
 
         // Extract message type from application header
         let message_type = application_header.message_type().to_string();
